@@ -203,6 +203,14 @@ func parseRequestDataToRequest(lmd *Daemon, requestData map[string]interface{}) 
 		}
 	}
 
+	// AuthUser
+	if val, ok := requestData["authuser"]; ok {
+		err = parseAuthUser(&req.AuthUser, []byte(interface2stringNoDedup(val)))
+		if err != nil {
+			return req, err
+		}
+	}
+
 	// Sort
 	var requestDataSort []interface{}
 	if val, ok := requestData["sort"]; ok {
